@@ -121,3 +121,79 @@ Theorem model_passes_spec : forall types prog evs s settled,
   spec_ok {| c_types := types; c_prog := prog; c_settled := settled; c_events := evs |} = true.
 Proof. exact Proofs.C15.model_passes_spec. Qed.
 Print Assumptions model_passes_spec.
+
+(* ================================================================== the bounded receive buffer
+   [brun cap types prog ls = Some b]: ls is a behaviour of Execute with a receive buffer of cap
+   slots (Model/C15.v, second half): the registered handler BLOCKS in [recvChan <- msg] until the
+   channel has room ([LEnq]), returns afterwards ([LRet]); the loop pops one message ([LPop]) and
+   passes it through Receive ([LEv (MRecv ..)]).  [erase ls] is the event log of the first half. *)
+
+(* for every capacity, a run with the buffer is a run of the machine of the first half: every
+   theorem above holds of the code with its 512-slot buffer *)
+Theorem bounded_refines_unbounded : forall cap types prog ls b,
+  brun cap types prog ls = Some b -> run types prog (erase ls) = Some (core b).
+Proof. exact Proofs.C15.bounded_refines_unbounded. Qed.
+Print Assumptions bounded_refines_unbounded.
+
+(* at every point: delivered ++ popped ++ channel ++ blocked producers' messages = the messages
+   handed to the handler, in order (none dropped, duplicated or reordered); the channel holds at
+   most cap messages; the handler calls that returned or are returning are exactly the messages
+   that entered the channel; the shared history is the admitted messages *)
+Theorem bounded_buffer_fifo_no_drop : forall cap types prog ls b,
+  brun cap types prog ls = Some b ->
+  map snd (recvs (erase ls)) ++ inhand b ++ inchan b ++ blocked b = accepted (erase ls) /\
+  (length (inchan b) <= cap)%nat /\ (length (inhand b) <= 1)%nat /\
+  length (inhand b) = nhand b /\ length (inchan b) = nchan b /\
+  (rets ls + unret b = length (recvs (erase ls)) + length (inhand b) + length (inchan b))%nat /\
+  hist (core b) = admitted (erase ls).
+Proof. exact Proofs.C15.bounded_buffer_fifo_no_drop. Qed.
+Print Assumptions bounded_buffer_fifo_no_drop.
+
+(* the producer blocks instead of dropping: a handler call returns only when its message has
+   room, i.e. returns so far < completed Receive calls + cap + 1 *)
+Theorem handler_returns_only_with_room : forall cap types prog pre post b,
+  brun cap types prog (pre ++ LRet :: post) = Some b ->
+  (S (rets pre) <= length (recvs (erase pre)) + cap + 1)%nat.
+Proof. exact Proofs.C15.handler_returns_only_with_room. Qed.
+Print Assumptions handler_returns_only_with_room.
+
+(* for every capacity >= 1 a blocked producer is not blocked for good while the loop runs: the
+   channel has room, or the loop can pop, or the popped message can go through Receive *)
+Theorem producer_not_stuck : forall cap types prog ls b,
+  (1 <= cap)%nat -> brun cap types prog ls = Some b ->
+  mach_ (core b) = Running -> blocked b <> [] ->
+  exists l, (l = LEnq \/ l = LPop \/ exists m, l = LEv (MRecv (cur (core b)) m)) /\
+            bstep cap types prog b l <> None.
+Proof. exact Proofs.C15.producer_not_stuck. Qed.
+Print Assumptions producer_not_stuck.
+
+(* soundness of the executable form for burst observations (any capacity; the judge uses the
+   generated constant asyncReceiveBuffer) *)
+Theorem burst_spec_sound : forall cap c, bspec_ok_cap cap c = true ->
+  let H := expand (b_handed c) in let R := expand (b_received c) in
+  (exists rest, H = R ++ rest) /\
+  (b_drained c = true -> R = H) /\
+  (forall pre post, expand_sched true (b_sched c) = pre ++ true :: post ->
+     (S (cntT pre) <= cntF pre + cap + 1)%nat) /\
+  map expand_ids (b_hist c) = snapshot_of (b_types c) (admitted_of R) /\
+  match b_outcome c with
+  | AFinal k => S k = length (b_prog c) /\
+                forall s, In s (b_prog c) -> can_transition s (admitted_of R) = true
+  | AErrInit k => a_init_err (nth_ast (b_prog c) k) = true
+  | AErrNext k => a_next_err (nth_ast (b_prog c) k) = true
+  | ACancelled => True
+  end.
+Proof. exact Proofs.C15.burst_spec_sound. Qed.
+Print Assumptions burst_spec_sound.
+
+(* ... and its checks hold of every run of the model with the buffer: Receive saw a prefix of
+   what was handed over, all of it once the queue is empty, no handler call returned without room,
+   the history is what the admitted messages give *)
+Theorem bounded_model_passes_burst_checks : forall cap types prog ls b,
+  brun cap types prog ls = Some b ->
+  is_prefix (map snd (recvs (erase ls))) (accepted (erase ls)) = true /\
+  sched_ok cap (sched_of ls) = true /\
+  (abuf (core b) = [] -> map snd (recvs (erase ls)) = accepted (erase ls)) /\
+  snapshot_of types (hist (core b)) = snapshot_of types (admitted_of (map snd (recvs (erase ls)))).
+Proof. exact Proofs.C15.bounded_model_passes_burst_checks. Qed.
+Print Assumptions bounded_model_passes_burst_checks.
